@@ -26,23 +26,28 @@ class HostileMonitor(Monitor):
         mon = self
 
         def append(th, addr, hdr, datagram):
-            mon.appended[addr[0]] += 1
+            mon.appended[mon.ip(addr)] += 1
             return orig(th, addr, hdr, datagram)
         world.seams._set(UST, "append", append)
         world.net.rx_taps.append(self.rx)
         world.net.taps.append(self.tx)
 
+    @staticmethod
+    def ip(addr):
+        h = addr[0]
+        return h[7:] if h.lower().startswith("::ffff:") and "." in h else h
+
     def rx(self, t, src, dst, n, origin):
         if dst == SERVER_ADDR:
-            self.bytes_in[src] += n
+            self.bytes_in[tuple(src[:2])] += n
 
     def tx(self, wid, t, src, dst, data, fate):
         if src != SERVER_ADDR:
             return
         w = self.w
         self.bytes_out[dst] += len(data)
-        if dst[0] in self.blocklist:
-            self.out_to_blocked[dst[0]] += len(data)
+        if self.ip(dst) in self.blocklist:
+            self.out_to_blocked[self.ip(dst)] += len(data)
         if dst not in self.promoted and self.bytes_out[dst] > self.bytes_in[dst]:
             self.amplified.append((t, dst, self.bytes_out[dst], self.bytes_in[dst]))
 
@@ -97,7 +102,9 @@ class C11(UdpCheck):
         for j in range(nf):
             kind = rng.choice(["random", "magic", "header", "hello-replay", "hello-replay", "hello-mutated", "hello-short",
                                "mutate-genuine", "hello-reseq", "hello-reseq"])
-            srcmode = rng.choice(["fresh", "fresh", "victim", "blocked", "port0", "one"])
+            srcmode = rng.choice(["fresh", "fresh", "victim", "blocked", "blocked-mapped", "port0", "one"])
+            if srcmode == "blocked-mapped" and cfg.get("entry") != "twisted":
+                srcmode = "blocked"     # only the Twisted entry can listen on a dual stack socket; _UdpServer is AF_INET
             plan.append({"op": "flood", "global": True, "t": round(0.6 + rng.random() * (dur - 4.5), 3), "kind": kind,
                          "srcmode": srcmode, "count": rng.choice([100, 400, 1500]), "spread": rng.choice([0.0, 0.05, 0.5]),
                          "n": j, "victim": rng.randrange(n)})
@@ -138,6 +145,9 @@ class C11(UdpCheck):
                 src = client_addr(op["victim"])
             elif mode == "blocked":
                 src = (BLOCKED_ATTACKER_IP, 1024 + rng.randrange(60000))
+            elif mode == "blocked-mapped":
+                # the server listens on "::" (dual stack): an IPv4 peer shows up as an IPv4-mapped IPv6 4-tuple
+                src = ("::ffff:" + BLOCKED_ATTACKER_IP, 1024 + rng.randrange(60000), 0, 0)
             else:
                 src = ("172.29.%d.%d" % (rng.randrange(256), 1 + rng.randrange(250)), 0)
             if kind == "random":
@@ -207,7 +217,7 @@ class C11(UdpCheck):
                 vs.append({"kind": "blocked_source_reached_the_loop", "key": entry, "detail": {"ip": ip, "n": mon.appended[ip]}})
             if mon.out_to_blocked.get(ip):
                 vs.append({"kind": "server_replied_to_blocked_source", "key": entry, "detail": {"ip": ip, "bytes": mon.out_to_blocked[ip]}})
-            if any(sc.addr[0] == ip for sc in w.all_server_conns):
+            if any(mon.ip(sc.addr) == ip for sc in w.all_server_conns):
                 vs.append({"kind": "connection_object_for_blocked_source", "key": entry, "detail": {"ip": ip}})
         # 3. no amplification towards an address that has not completed the handshake
         if mon.amplified:
@@ -229,6 +239,8 @@ class C11(UdpCheck):
                 if cn.client is not None and cn.client.connected():
                     vs.append({"kind": "blocked_client_connected", "key": entry, "detail": cn.name})
                 continue
+            if not any(op.get("op") == "connect" and op.get("c") == cn.idx for op in w.plan):
+                continue        # (minimised plans) never asked to connect
             st = [s for t, name, inc, s in w.status_log if name == cn.name]
             if "DROPPED" in st or "DISCONNECTED" in st or "CONNECTED" not in st:
                 vs.append({"kind": "honest_client_lost_its_connection", "key": entry, "detail": {"client": cn.name, "statuses": st}})
